@@ -34,7 +34,7 @@ class C06(PropBase):
     STEPS = {"quick": 300, "thorough": 300}
     REQUIRED_REACH = ("damaged_alone_in_chunk", "damaged_followed_by_intact_same_chunk", "damaged_split_across_calls",
                       "damaged_on_residue_path", "damaged_on_direct_path", "damaged_but_still_decodes", "error_raised_for_damaged",
-                      "final_probe_pdu", "client_subject", "server_subject")
+                      "final_probe_pdu", "client_subject", "server_subject", "subject_unbound_before_stream")
     REQUIRED_CELLS = tuple("fault:%s" % k for k in faults.INTERIOR)
 
     def __init__(self, tier="quick"):
@@ -84,6 +84,7 @@ class C06(PropBase):
         init["damaged"] = damaged
         init["pdu_lens"] = [len(p) for p in pdus]
         init["final_id"] = 77777
+        init["unbind_first"] = rng.random() < 0.08  # the application unbinds (operations still in progress) before the bytes arrive
         return init
 
     def make(self, init):
@@ -101,7 +102,11 @@ class C06(PropBase):
                 else:
                     S.real.receive(bytes.fromhex(p["hex"]))
                 S.real.data_to_send()
-            if init["role"] == "c":
+            if init.get("unbind_first"):
+                S.real.unbind()
+                S.real.data_to_send()
+                st.hit("subject_unbound_before_stream")
+            elif init["role"] == "c":
                 # one extra request whose response is kept for the final probe
                 self.final_id = None
                 if S.real.state.name != "BINDING":
@@ -118,7 +123,7 @@ class C06(PropBase):
             p += ln
         x["ext"] = ext
         x["dam"] = {d["pdu"]: d["fault"]["kind"] for d in init.get("damaged", [])}
-        if not x["dam"]:
+        if not x["dam"] and not init.get("unbind_first"):
             x["discard"] = "no applicable interior fault for this stream"
         S.inbox.extend(x["stream"])
         st.hit("client_subject" if init["role"] == "c" else "server_subject")
@@ -165,6 +170,7 @@ class C06(PropBase):
             return
         n = len(ev["data"])
         x["off"] += n
+        x.setdefault("rx", bytearray()).extend(ev["data"])  # everything handed to receive(), whatever the session's state
         st.label("deliver:%s" % ("ok" if ev["ok"] else "err"))
         completed = [i for i, (a, b) in enumerate(x["ext"]) if start < b <= x["off"]]
         dam_completed = [i for i in completed if i in x["dam"]]
@@ -200,12 +206,12 @@ class C06(PropBase):
         if dam_completed:
             st.hit("damaged_but_still_decodes")
         x["R"] += len(ev["msgs"])
-        units, _rest, flag = ber.frame_units(S.rx_all)
+        units, _rest, flag = ber.frame_units(x["rx"])
         D = len(units)
         if flag is None and x["R"] < D:
             raise Violation(P, "swallowed", "%d complete outer PDUs have been delivered (%d bytes) but receive() has returned only %d "
-                            "messages and raised nothing; this call delivered %d bytes completing PDUs %s (damage: %s)" % (
-                                D, len(S.rx_all), x["R"], n, completed, [x["dam"].get(i) for i in completed]))
+                            "messages and raised nothing; this call delivered %d bytes completing PDUs %s (damage: %s); state %s" % (
+                                D, len(x["rx"]), x["R"], n, completed, [x["dam"].get(i) for i in completed], ev["st_after"]))
         if x["R"] > D:
             raise Violation(P, "invented", "%d messages returned but only %d complete outer PDUs delivered" % (x["R"], D))
 
